@@ -590,22 +590,20 @@ theorem consumerDown_sinv {s : St} (h : SInv s) (hp : Live s) (cfg : Cfg) (cid :
         (by rw [c2]; exact h.rd_jpc.mpr (by simp [hj])) ?_ h3.stable_hb h3.hb_has
       rw [c5, c3]; exact h.jpc_needed (by simp [hj])
   · split
-    · split
-      · exact h1
-      · rename_i co rest hhit
-        split
-        · exact sinv_stops_prep h1 hp1 _ s.prep
-        · simp only [andThen_fst]
-          have h2 := sinv_stops_prep h1 hp1 (s.stops.filter fun (c : StopCo) => !c.drain.pending.contains cid) s.prep
-          have hp2 : Live { s with cons := s.cons.map f, stops := s.stops.filter fun (c : StopCo) => !c.drain.pending.contains cid } := hp
-          have h3 := drainDone_sinv h2 hp2 { co.drain with pending := co.drain.pending.filter (· != cid) } ok
-          obtain ⟨c1, c2, c3, c4, c5, c6, c7⟩ := drainDone_ctl
-            { s with cons := s.cons.map f, stops := s.stops.filter fun (c : StopCo) => !c.drain.pending.contains cid }
-            { co.drain with pending := co.drain.pending.filter (· != cid) } ok
-          have hp3 : Live (drainDone { s with cons := s.cons.map f, stops := s.stops.filter fun (c : StopCo) => !c.drain.pending.contains cid }
-            { co.drain with pending := co.drain.pending.filter (· != cid) } ok).1 := by unfold Live; rw [c3, c4]; exact hp
-          exact sinv_after_call (stopLoop_res h3.toWInv cfg co.err co.user (rd_idle h3) h3.hb_has) h3 hp3
     · exact h1
+    · rename_i a co b hsp
+      split
+      · exact sinv_stops_prep h1 hp1 _ s.prep
+      · simp only [andThen_fst]
+        have h2 := sinv_stops_prep h1 hp1 (a ++ b) s.prep
+        have hp2 : Live { s with cons := s.cons.map f, stops := a ++ b } := hp
+        have h3 := drainDone_sinv h2 hp2 { co.drain with pending := co.drain.pending.filter (· != cid) } ok
+        obtain ⟨c1, c2, c3, c4, c5, c6, c7⟩ := drainDone_ctl
+          { s with cons := s.cons.map f, stops := a ++ b }
+          { co.drain with pending := co.drain.pending.filter (· != cid) } ok
+        have hp3 : Live (drainDone { s with cons := s.cons.map f, stops := a ++ b }
+          { co.drain with pending := co.drain.pending.filter (· != cid) } ok).1 := by unfold Live; rw [c3, c4]; exact hp
+        exact sinv_after_call (stopLoop_res h3.toWInv cfg co.err co.user (rd_idle h3) h3.hb_has) h3 hp3
 
 theorem consumerDownEv_sinv {s : St} (h : SInv s) (hp : Live s) (cfg : Cfg) (cid : Nat) (ok : Bool) :
     SInv (step cfg s (.consumerDown cid ok)).1 := by
